@@ -151,7 +151,8 @@ PROPERTY = {
                 "heap typing at entry: the records / timers stored in _members and _pending_acks are objects that exist in "
                 "the pre-state (preconditions member_records_exist / pending_timers_exist; the engine bounds a reference "
                 "only when it is read, which is too late after the handler allocated an event)",
-                "math.erfc: strictly decreasing, positive; math.log10: strictly increasing on (0,inf) "
+                "math.erfc: non-negative, non-increasing, strictly decreasing where positive (float underflow to 0 is "
+                "allowed, so the `p <= 0` guard of phi() is reachable); math.log10: strictly increasing on (0,inf) "
                 "(uninterpreted functions with these facts, pyvc/extern.py)"],
     "assumptions": COMMON_ASSUMPTIONS + [
         "PhiAccrualDetector._mean/_std are deterministic, side-effect free functions of the sample window "
@@ -236,9 +237,24 @@ def phi_raw(w, last, min_std, now):
     return -log10(p)
 
 
+def phi_p(w, last, min_std, now):
+    """the tail probability P(gap > silence) itself; with floats it underflows to 0 for a long silence, and phi is
+    then +infinity (the statement's -log10(0))"""
+    import math
+    std = STD_OF(w)
+    sd = z3.If(std >= min_std, std, min_std)
+    erfc = z3.Function("math_erfc", z3.RealSort(), z3.RealSort())
+    y = (now - last - MEAN_OF(w)) / sd
+    return num(0.5) * erfc(y / num(math.sqrt(2)))
+
+
 def phi_spec(o, now):
     """phi of detector view o at time now, given a last heartbeat exists"""
     return phi_raw(seq_term(o._intervals), num(o._last_heartbeat), num(o._min_std), num(now))
+
+
+def phi_p_spec(o, now):
+    return phi_p(seq_term(o._intervals), num(o._last_heartbeat), num(o._min_std), num(now))
 
 
 def avail_term(det, now):
@@ -248,7 +264,8 @@ def avail_term(det, now):
     lt, w = field_term(det, "_last_heartbeat"), field_term(det, "_intervals")
     thr, mn = field_term(det, "_threshold"), field_term(det, "_min_std")
     quiet = z3.Or(od.is_none(lt), z3.Length(w) < 1, num(now) - od.val(lt) < 0)
-    return z3.If(quiet, 0 < thr, phi_raw(w, od.val(lt), mn, num(now)) < thr)
+    # (an underflowed tail probability means phi = +inf: never below a threshold)
+    return z3.If(quiet, 0 < thr, z3.And(phi_p(w, od.val(lt), mn, num(now)) > 0, phi_raw(w, od.val(lt), mn, num(now)) < thr))
 
 
 def ite_b(c, a, b):
@@ -262,10 +279,11 @@ def _phi_is(o, r, now):
     last = o._last_heartbeat
     if last is None:
         return r == 0
-    if isinstance(r, float) and r == float("inf"):
-        return False            # erfc is positive: the p <= 0 branch is dead
     quiet = (slen(o._intervals) < 1) | (now - last < 0)
-    return ite_b(quiet, r == 0, mk_bool(num(r) == phi_spec(o, now)))
+    if isinstance(r, float) and r == float("inf"):
+        # +inf exactly when the (float) tail probability has underflowed to 0 - and never in the quiet cases
+        return Not(quiet) & mk_bool(phi_p_spec(o, now) <= 0)
+    return ite_b(quiet, r == 0, mk_bool(phi_p_spec(o, now) > 0) & mk_bool(num(r) == phi_spec(o, now)))
 
 
 fn(PhiAccrualDetector, "phi", args={"now_s": Real}, uses=STATS, ensures=[
@@ -290,6 +308,11 @@ def phi_at_two_times(det, t1, t2):
 
 def _phi_monotone(s):
     a, b = s.result
+    inf = float("inf")
+    if isinstance(b, float) and b == inf:
+        return True                     # anything <= +inf
+    if isinstance(a, float) and a == inf:
+        return False                    # +inf followed by a finite value: must be an infeasible path
     return a <= b
 
 
